@@ -12,7 +12,8 @@ from .. import tlc
 WHAT = {"gto": "func.gen_term_orders", "stay": "expand_S_taylor",
         "norm": "expand_norm_factor",
         "bord": "block_order / max_ptorder_spaces (pp, ip, ea, dip, dea)",
-        "low": "get_lowest_avail_indices", "split": "split_idx_string"}
+        "low": "get_lowest_avail_indices", "split": "split_idx_string",
+        "mti": "minimize_tensor_indices"}
 
 
 def run_helpers(chk, funcs):
